@@ -136,3 +136,4 @@ def run(ctx):
     # use of a block after it was handed to another thread or freed (ownership rule of C12)
     c12._ownership(ctx, prog, A)
     codecrules.unrle_walk(ctx, prog, 'C08', only=('space', 'read'))
+    c11.ring_rule(ctx, prog, pfx='C08')
